@@ -1,63 +1,646 @@
+// c12drv: replays TLC-generated CRDT histories (spec/C12/CRDTTypes.tla: local updates,
+// pairwise merges, snapshots = messages in flight, stale / duplicated deliveries) on the real
+// resources.GCounter / AWORSet / LWWSet values, through the public CRDTValue interface
+// (Init/Read/Write/Merge) and encoding/gob, and records every value that came into existence
+// as one ndjson line: how it was made (init / write / merge / gob round trip, operand indices),
+// what Read() returned and a canonical dump of its state. The verdicts are TLC's
+// (spec/C12/CRDTObs.tla, CRDTImplTrace.tla); this program judges nothing.
+//
+// After the history of a case, "law probes" compute further values from the ones reached:
+// a⊔b and b⊔a, a⊔a, (a⊔b)⊔c and a⊔(b⊔c), s⊔w and w⊔s for every write w of state s, and the gob
+// round trip of every value (as the RPC argument struct the CRDT resource sends).
 package main
 
 import (
+	"bufio"
 	"bytes"
 	"encoding/gob"
+	"encoding/json"
+	"flag"
 	"fmt"
+	"math/rand"
+	"os"
+	"sort"
+	"strings"
+	"time"
 
 	"github.com/DistCompiler/pgo/distsys/resources"
 	"github.com/DistCompiler/pgo/distsys/tla"
 )
 
-func req(cmd int32, e tla.Value) tla.Value {
-	return tla.MakeRecord([]tla.RecordField{{Key: tla.MakeString("cmd"), Value: tla.MakeNumber(cmd)}, {Key: tla.MakeString("elem"), Value: e}})
+type step struct {
+	A   string `json:"a"` // upd | merge | snap | deliver
+	R   int    `json:"r"`
+	Q   int    `json:"q"`
+	Op  string `json:"op"`
+	E   int    `json:"e"`
+	Amt int    `json:"amt"`
 }
 
-type box struct{ V resources.CRDTValue }
+type kase struct {
+	Case   string `json:"case"`
+	Kind   string `json:"kind"` // gcounter | aworset | lww
+	NRep   int    `json:"nrep"`
+	NElem  int    `json:"nelem"`
+	NSlot  int    `json:"nslot"`
+	Uni    int    `json:"uni"`
+	Probes int    `json:"probes"` // max number of values taking part in the law probes (0 = none)
+	Trip   int    `json:"trip"`   // number of sampled triples for associativity
+	Steps  []step `json:"steps"`
+}
 
-func rt(v resources.CRDTValue) resources.CRDTValue {
+type rec map[string]interface{}
+
+var out *bufio.Writer
+
+func emit(r rec) {
+	b, err := json.Marshal(r)
+	if err != nil {
+		panic(err)
+	}
+	out.Write(b)
+	out.WriteByte('\n')
+}
+
+// ---------------------------------------------------------------- identifier / element universes
+
+func str(s string) tla.Value { return tla.MakeString(s) }
+func num(n int32) tla.Value  { return tla.MakeNumber(n) }
+func recd(k string, v tla.Value) tla.Value {
+	return tla.MakeRecord([]tla.RecordField{{Key: str(k), Value: v}})
+}
+
+// universes of replica identifiers (index i-1 = replica i); 6 replicas at most
+var idUniverses = [][]tla.Value{
+	{str("A"), str("B"), str("C"), str("D"), str("E"), str("F")},
+	{num(1), num(2), num(3), num(4), num(5), num(6)},
+	{tla.MakeTuple(num(1), str("n")), tla.MakeTuple(num(2), str("n")), tla.MakeTuple(num(3), str("n")), tla.MakeTuple(num(4), str("n")), tla.MakeTuple(num(5), str("n")), tla.MakeTuple(num(6), str("n"))},
+	{recd("node", num(1)), recd("node", num(2)), recd("node", num(3)), recd("node", num(4)), recd("node", num(5)), recd("node", num(6))},
+	{tla.MakeSet(), tla.MakeSet(num(1)), tla.MakeSet(num(1), num(2)), tla.MakeSet(str("x")), tla.MakeSet(tla.MakeSet()), tla.MakeSet(num(2))},
+	{str(""), num(0), tla.MakeBool(true), tla.MakeTuple(), num(-1), str("0")},
+}
+
+// universes of set elements (index i-1 = element i); 4 elements at most
+var elemUniverses = [][]tla.Value{
+	{num(5), num(6), num(7), num(8)},
+	{str("a"), str("b"), str("c"), str("d")},
+	{tla.MakeTuple(num(1), num(2)), tla.MakeTuple(num(2), num(1)), tla.MakeTuple(), tla.MakeTuple(str("x"))},
+	{recd("k", num(1)), recd("k", num(2)), recd("j", num(1)), recd("k", str("1"))},
+	{tla.MakeSet(), tla.MakeSet(num(1)), tla.MakeSet(tla.MakeSet()), tla.MakeSet(num(1), num(2))},
+	{str("A"), num(1), tla.MakeBool(false), tla.MakeSet()}, // overlaps with identifiers on purpose
+}
+
+type world struct {
+	k        kase
+	ids      []tla.Value
+	elems    []tla.Value
+	vals     []resources.CRDTValue
+	nid      int           // number of writes so far (= event id = logical LWW stamp)
+	stampID  map[int64]int // LWW: wall-clock nanoseconds -> id of the update that produced them
+	lastWall time.Time
+	writes   [][2]int // (state index, written value index) of every update of the history
+}
+
+func (w *world) idIndex(v tla.Value) int {
+	for i, x := range w.ids {
+		if x.Equal(v) {
+			return i + 1
+		}
+	}
+	return 0
+}
+func (w *world) elemIndex(v tla.Value) int {
+	for i, x := range w.elems {
+		if x.Equal(v) {
+			return i + 1
+		}
+	}
+	return 0
+}
+
+func (w *world) proto() resources.CRDTValue {
+	switch w.k.Kind {
+	case "gcounter":
+		return resources.GCounter{}
+	case "aworset":
+		return resources.AWORSet{}
+	case "lww":
+		return resources.LWWSet{}
+	}
+	panic("unknown kind " + w.k.Kind)
+}
+
+// ---------------------------------------------------------------- canonical dumps
+
+func (w *world) vclockDump(g resources.GCounter, x *int) []int {
+	res := make([]int, w.k.NRep)
+	if g.Map == nil {
+		return res
+	}
+	it := g.Iterator()
+	for !it.Done() {
+		k, v, _ := it.Next()
+		i := w.idIndex(k)
+		if i == 0 || i > w.k.NRep {
+			if v != 0 {
+				*x++
+			}
+			continue
+		}
+		res[i-1] += int(v)
+	}
+	return res
+}
+
+type awEntry struct {
+	Add []int `json:"add"`
+	Rem []int `json:"rem"`
+}
+type lwwEntry struct {
+	Add int `json:"add"`
+	Rem int `json:"rem"`
+}
+
+// dump returns (structure, number of entries that could not be mapped, ok)
+func (w *world) dump(v resources.CRDTValue) (s interface{}, x int, ok bool) {
+	defer func() {
+		if p := recover(); p != nil {
+			s, x, ok = 0, 0, false
+		}
+	}()
+	switch w.k.Kind {
+	case "gcounter":
+		g, isG := v.(resources.GCounter)
+		if !isG {
+			return 0, 0, false
+		}
+		d := w.vclockDump(g, &x)
+		return d, x, true
+	case "aworset":
+		a, isA := v.(resources.AWORSet)
+		if !isA {
+			return 0, 0, false
+		}
+		b, err := a.GobEncode()
+		if err != nil {
+			return 0, 0, false
+		}
+		var maps resources.AddRemMaps
+		if err := gob.NewDecoder(bytes.NewBuffer(b)).Decode(&maps); err != nil {
+			return 0, 0, false
+		}
+		es := make([]awEntry, w.k.NElem)
+		for i := range es {
+			es[i] = awEntry{Add: make([]int, w.k.NRep), Rem: make([]int, w.k.NRep)}
+		}
+		for _, kv := range maps.AddMap {
+			i := w.elemIndex(kv.K)
+			if i == 0 || i > w.k.NElem {
+				x++
+				continue
+			}
+			d := w.vclockDump(kv.V, &x)
+			for j := range d {
+				es[i-1].Add[j] += d[j]
+			}
+		}
+		for _, kv := range maps.RemMap {
+			i := w.elemIndex(kv.K)
+			if i == 0 || i > w.k.NElem {
+				x++
+				continue
+			}
+			d := w.vclockDump(kv.V, &x)
+			for j := range d {
+				es[i-1].Rem[j] += d[j]
+			}
+		}
+		return es, x, true
+	case "lww":
+		l, isL := v.(resources.LWWSet)
+		if !isL {
+			return 0, 0, false
+		}
+		b, err := l.GobEncode()
+		if err != nil {
+			return 0, 0, false
+		}
+		dec := gob.NewDecoder(bytes.NewBuffer(b))
+		es := make([]lwwEntry, w.k.NElem)
+		for pass := 0; pass < 2; pass++ {
+			var n int
+			if err := dec.Decode(&n); err != nil {
+				return 0, 0, false
+			}
+			for j := 0; j < n; j++ {
+				var e tla.Value
+				var t time.Time
+				if err := dec.Decode(&e); err != nil {
+					return 0, 0, false
+				}
+				if err := dec.Decode(&t); err != nil {
+					return 0, 0, false
+				}
+				i := w.elemIndex(e)
+				id, known := w.stampID[t.UnixNano()]
+				if i == 0 || i > w.k.NElem || !known {
+					x++
+					continue
+				}
+				if pass == 0 {
+					es[i-1].Add = id
+				} else {
+					es[i-1].Rem = id
+				}
+			}
+		}
+		return es, x, true
+	}
+	return 0, 0, false
+}
+
+// lwwStamp returns the wall-clock nanoseconds stored for (op, elem) in an LWWSet
+func (w *world) lwwStamp(v resources.CRDTValue, op string, e tla.Value) (ns int64, found bool) {
+	defer func() {
+		if recover() != nil {
+			found = false
+		}
+	}()
+	l, isL := v.(resources.LWWSet)
+	if !isL {
+		return 0, false
+	}
+	b, err := l.GobEncode()
+	if err != nil {
+		return 0, false
+	}
+	dec := gob.NewDecoder(bytes.NewBuffer(b))
+	for pass := 0; pass < 2; pass++ {
+		var n int
+		if dec.Decode(&n) != nil {
+			return 0, false
+		}
+		for j := 0; j < n; j++ {
+			var k tla.Value
+			var t time.Time
+			if dec.Decode(&k) != nil || dec.Decode(&t) != nil {
+				return 0, false
+			}
+			if ((pass == 0 && op == "add") || (pass == 1 && op == "rem")) && k.Equal(e) {
+				return t.UnixNano(), true
+			}
+		}
+	}
+	return 0, false
+}
+
+// ---------------------------------------------------------------- recording values
+
+type caseAbort struct{ why string }
+
+// newVal appends a value and emits its line
+func (w *world) newVal(v resources.CRDTValue, f string, a, b int, st *step, law string, p int) int {
+	w.vals = append(w.vals, v)
+	idx := len(w.vals)
+	r := rec{"e": "val", "v": idx, "f": f, "a": a, "b": b, "r": 0, "op": "", "el": 0, "amt": 0, "law": law, "p": p}
+	if st != nil {
+		r["r"], r["op"], r["el"], r["amt"] = st.R, st.Op, st.E, st.Amt
+	}
+	// Read()
+	rk, rn, rs := "other", 0, []int{}
+	func() {
+		defer func() {
+			if p := recover(); p != nil {
+				emit(rec{"e": "panic", "what": "Read", "msg": fmt.Sprint(p)})
+				panic(caseAbort{"panic in Read"})
+			}
+		}()
+		rv := v.Read()
+		switch {
+		case rv.IsNumber():
+			rk, rn = "num", int(rv.AsNumber())
+		case rv.IsSet():
+			rk = "set"
+			it := rv.AsSet().Iterator()
+			for !it.Done() {
+				k, _, _ := it.Next()
+				rs = append(rs, w.elemIndex(k))
+			}
+			sort.Ints(rs)
+		}
+	}()
+	r["rk"], r["rn"], r["rs"] = rk, rn, rs
+	s, x, ok := w.dump(v)
+	r["dok"] = ok
+	r["d"] = rec{"s": s, "x": x}
+	emit(r)
+	return idx
+}
+
+func (w *world) guard(what string, f func() resources.CRDTValue) resources.CRDTValue {
+	var res resources.CRDTValue
+	func() {
+		defer func() {
+			if p := recover(); p != nil {
+				if ca, isAbort := p.(caseAbort); isAbort {
+					panic(ca)
+				}
+				emit(rec{"e": "panic", "what": what, "msg": fmt.Sprint(p)})
+				panic(caseAbort{"panic in " + what})
+			}
+		}()
+		res = f()
+	}()
+	if res == nil {
+		emit(rec{"e": "panic", "what": what, "msg": "returned nil"})
+		panic(caseAbort{"nil from " + what})
+	}
+	return res
+}
+
+func (w *world) merge(a, b int, law string, p int) int {
+	v := w.guard("Merge", func() resources.CRDTValue { return w.vals[a-1].Merge(w.vals[b-1]) })
+	return w.newVal(v, "merge", a, b, nil, law, p)
+}
+
+// gob round trip as the CRDT resource ships values: inside the RPC argument struct
+func gobBytes(v resources.CRDTValue) ([]byte, error) {
 	var buf bytes.Buffer
-	if err := gob.NewEncoder(&buf).Encode(box{v}); err != nil {
-		panic(err)
+	if err := gob.NewEncoder(&buf).Encode(resources.ReceiveValueArgs{Value: v}); err != nil {
+		return nil, err
 	}
-	var b box
-	if err := gob.NewDecoder(&buf).Decode(&b); err != nil {
-		panic(err)
+	return buf.Bytes(), nil
+}
+func gobValue(b []byte) (resources.CRDTValue, error) {
+	var args resources.ReceiveValueArgs
+	if err := gob.NewDecoder(bytes.NewBuffer(b)).Decode(&args); err != nil {
+		return nil, err
 	}
-	return b.V
+	if args.Value == nil {
+		return nil, fmt.Errorf("decoded value is nil")
+	}
+	return args.Value, nil
+}
+
+func (w *world) gobTrip(a int, law string) int {
+	v := w.guard("gob", func() resources.CRDTValue {
+		b, err := gobBytes(w.vals[a-1])
+		if err != nil {
+			emit(rec{"e": "goberr", "what": "encode", "a": a, "msg": err.Error()})
+			panic(caseAbort{"gob encode error"})
+		}
+		d, err := gobValue(b)
+		if err != nil {
+			emit(rec{"e": "goberr", "what": "decode", "a": a, "msg": err.Error()})
+			panic(caseAbort{"gob decode error"})
+		}
+		return d
+	})
+	return w.newVal(v, "gob", a, 0, nil, law, a)
+}
+
+func request(op string, e tla.Value) tla.Value {
+	cmd := int32(1)
+	if op == "rem" {
+		cmd = 2
+	}
+	return tla.MakeRecord([]tla.RecordField{{Key: str("cmd"), Value: num(cmd)}, {Key: str("elem"), Value: e}})
+}
+
+func (w *world) write(a int, st *step) int {
+	id := w.ids[st.R-1]
+	var arg tla.Value
+	var e tla.Value
+	if w.k.Kind == "gcounter" {
+		arg = num(int32(st.Amt))
+	} else {
+		e = w.elems[st.E-1]
+		arg = request(st.Op, e)
+	}
+	if w.k.Kind == "lww" {
+		// LWW stamps are time.Now(): make sure the wall clock has visibly advanced since the previous
+		// write, so that stamp order = update order also after gob dropped the monotonic reading
+		for {
+			now := time.Now().Round(0)
+			if now.Sub(w.lastWall) >= 2*time.Microsecond {
+				break
+			}
+			if now.Before(w.lastWall) {
+				emit(rec{"e": "clockstep", "msg": "wall clock went backwards"})
+				panic(caseAbort{"clock step"})
+			}
+		}
+	}
+	v := w.guard("Write", func() resources.CRDTValue { return w.vals[a-1].Write(id, arg) })
+	w.nid++
+	if w.k.Kind == "lww" {
+		after := time.Now().Round(0)
+		if after.Before(w.lastWall) {
+			emit(rec{"e": "clockstep", "msg": "wall clock went backwards"})
+			panic(caseAbort{"clock step"})
+		}
+		w.lastWall = after
+		if ns, found := w.lwwStamp(v, st.Op, e); found {
+			if _, dup := w.stampID[ns]; !dup {
+				w.stampID[ns] = w.nid
+			}
+		}
+	}
+	idx := w.newVal(v, "write", a, 0, st, "", 0)
+	w.writes = append(w.writes, [2]int{a, idx})
+	return idx
+}
+
+// ---------------------------------------------------------------- one case
+
+func runCase(k kase, seed int64) {
+	w := &world{k: k, stampID: map[int64]int{}}
+	w.ids = idUniverses[k.Uni%len(idUniverses)][:k.NRep]
+	w.elems = elemUniverses[k.Uni%len(elemUniverses)]
+	if k.NElem < len(w.elems) {
+		w.elems = w.elems[:max(k.NElem, 1)]
+	}
+	idStr := make([]string, len(w.ids))
+	for i, v := range w.ids {
+		idStr[i] = v.String()
+	}
+	elStr := make([]string, len(w.elems))
+	for i, v := range w.elems {
+		elStr[i] = v.String()
+	}
+	emit(rec{"e": "case", "case": k.Case, "kind": k.Kind, "nrep": k.NRep, "nelem": max(k.NElem, 1), "uni": k.Uni,
+		"ids": idStr, "elems": elStr, "input": k})
+	if k.NElem < 1 {
+		w.k.NElem = 1
+	}
+	defer func() {
+		if p := recover(); p != nil {
+			if _, isAbort := p.(caseAbort); isAbort {
+				return
+			}
+			emit(rec{"e": "panic", "what": "driver", "msg": fmt.Sprint(p)})
+		}
+	}()
+	rng := rand.New(rand.NewSource(seed))
+	cur := make([]int, k.NRep+1)
+	for r := 1; r <= k.NRep; r++ {
+		v := w.guard("Init", func() resources.CRDTValue { return w.proto().Init() })
+		cur[r] = w.newVal(v, "init", 0, 0, nil, "", 0)
+	}
+	// slots hold gob bytes of a captured state (a message in flight); initially the initial state
+	slotBytes := make([][]byte, k.NSlot+1)
+	slotSrc := make([]int, k.NSlot+1)
+	for s := 1; s <= k.NSlot; s++ {
+		b, err := gobBytes(w.vals[cur[1]-1])
+		if err != nil {
+			emit(rec{"e": "goberr", "what": "encode", "a": cur[1], "msg": err.Error()})
+			return
+		}
+		slotBytes[s], slotSrc[s] = b, cur[1]
+	}
+	reached := map[int]bool{}
+	for i := range k.Steps {
+		st := &k.Steps[i]
+		switch st.A {
+		case "upd":
+			cur[st.R] = w.write(cur[st.R], st)
+		case "merge":
+			cur[st.R] = w.merge(cur[st.R], cur[st.Q], "", 0)
+		case "snap":
+			b, err := gobBytes(w.vals[cur[st.R]-1])
+			if err != nil {
+				emit(rec{"e": "goberr", "what": "encode", "a": cur[st.R], "msg": err.Error()})
+				return
+			}
+			slotBytes[st.Q], slotSrc[st.Q] = b, cur[st.R]
+			reached[cur[st.R]] = true
+		case "deliver":
+			src := slotSrc[st.Q]
+			b := slotBytes[st.Q]
+			v := w.guard("gob", func() resources.CRDTValue {
+				d, err := gobValue(b)
+				if err != nil {
+					emit(rec{"e": "goberr", "what": "decode", "a": src, "msg": err.Error()})
+					panic(caseAbort{"gob decode error"})
+				}
+				return d
+			})
+			g := w.newVal(v, "gob", src, 0, nil, "transport", src)
+			cur[st.R] = w.merge(cur[st.R], g, "", 0)
+		default:
+			panic("unknown step " + st.A)
+		}
+		reached[cur[st.R]] = true
+	}
+	if k.Probes <= 0 {
+		return
+	}
+	// ---- law probes
+	// inflation: every write w of state s satisfies s ⊔ w = w ⊔ s = w
+	for _, sw := range w.writes {
+		w.merge(sw[0], sw[1], "inflation", sw[1])
+		w.merge(sw[1], sw[0], "inflation", sw[1])
+	}
+	// the values taking part: final replica states first, then a seeded sample of the others
+	var sel []int
+	seen := map[int]bool{}
+	for r := 1; r <= k.NRep; r++ {
+		if !seen[cur[r]] {
+			sel = append(sel, cur[r])
+			seen[cur[r]] = true
+		}
+	}
+	var rest []int
+	for v := range reached {
+		if !seen[v] {
+			rest = append(rest, v)
+		}
+	}
+	sort.Ints(rest)
+	rng.Shuffle(len(rest), func(i, j int) { rest[i], rest[j] = rest[j], rest[i] })
+	for _, v := range rest {
+		if len(sel) >= k.Probes {
+			break
+		}
+		sel = append(sel, v)
+	}
+	pair := map[[2]int]int{}
+	for _, a := range sel {
+		w.gobTrip(a, "gob")
+		w.merge(a, a, "idempotent", a)
+	}
+	for i, a := range sel {
+		for j, b := range sel {
+			if i < j {
+				ab := w.merge(a, b, "commutative", 0)
+				ba := w.merge(b, a, "commutative", ab)
+				pair[[2]int{a, b}], pair[[2]int{b, a}] = ab, ba
+				w.merge(ab, b, "absorption", ab)
+				w.merge(a, ab, "absorption", ab)
+			}
+		}
+	}
+	if len(sel) >= 3 {
+		for t := 0; t < k.Trip; t++ {
+			p := rng.Perm(len(sel))
+			a, b, c := sel[p[0]], sel[p[1]], sel[p[2]]
+			l := w.merge(pair[[2]int{a, b}], c, "associative", 0)
+			w.merge(a, pair[[2]int{b, c}], "associative", l)
+		}
+	}
 }
 
 func main() {
-	A, B, C, D := tla.MakeString("A"), tla.MakeString("B"), tla.MakeString("C"), tla.MakeString("D")
-	e := tla.MakeNumber(5)
-	_ = C
-	_ = D
-	a := resources.AWORSet{}.Init()
-	b := resources.AWORSet{}.Init()
-	c := resources.AWORSet{}.Init()
-	a = a.Write(A, req(1, e))
-	a1 := a
-	b = b.Write(B, req(1, e))
-	a = a.Write(A, req(2, e))
-	c = c.Merge(b).Merge(a)
-	fmt.Println("c", c, c.Read())
-	c = c.Merge(a1)
-	fmt.Println("c+stale a1", c, c.Read())
-	b = b.Write(B, req(2, e))
-	c = c.Merge(b)
-	fmt.Println("c final", c, c.Read())
-	d := resources.AWORSet{}.Init().Merge(a).Merge(b)
-	fmt.Println("d", d, d.Read())
-	g := resources.GCounter{}.Init()
-	fmt.Println("gob empty gcounter", rt(g), rt(g).Read())
-	g = g.Write(A, tla.MakeNumber(3))
-	fmt.Println("gob gcounter", rt(g), rt(g).Read())
-	fmt.Println("gob aworset", rt(c), rt(c).Read(), rt(resources.AWORSet{}.Init()).Read())
-	l := resources.LWWSet{}.Init()
-	fmt.Println("gob lww empty", rt(l).Read())
-	l = l.Write(A, req(1, e))
-	l2 := resources.LWWSet{}.Init().Merge(l)
-	l2 = l2.Write(B, req(2, e))
-	l = l.Merge(l2)
-	fmt.Println("lww", l.Read(), l2.Read(), rt(l2).Read())
+	cases := flag.String("cases", "", "ndjson file of cases")
+	outp := flag.String("out", "", "ndjson trace output")
+	seed := flag.Int64("seed", 1, "seed for the sampled law probes")
+	flag.Parse()
+	fh, err := os.Open(*cases)
+	if err != nil {
+		fmt.Fprintln(os.Stderr, err)
+		os.Exit(2)
+	}
+	defer fh.Close()
+	of, err := os.Create(*outp)
+	if err != nil {
+		fmt.Fprintln(os.Stderr, err)
+		os.Exit(2)
+	}
+	out = bufio.NewWriterSize(of, 1<<20)
+	sc := bufio.NewScanner(fh)
+	sc.Buffer(make([]byte, 1<<20), 1<<26)
+	n := 0
+	for sc.Scan() {
+		line := strings.TrimSpace(sc.Text())
+		if line == "" {
+			continue
+		}
+		var k kase
+		if err := json.Unmarshal([]byte(line), &k); err != nil {
+			fmt.Fprintln(os.Stderr, "bad case:", err)
+			os.Exit(2)
+		}
+		if k.NRep < 1 || k.NRep > 6 || k.NElem > 4 {
+			fmt.Fprintln(os.Stderr, "case out of the driver's universe:", k.Case)
+			os.Exit(2)
+		}
+		n++
+		// every case runs under a watchdog; a hang is reported, never judged here
+		done := make(chan struct{})
+		go func() {
+			defer close(done)
+			runCase(k, *seed+int64(n))
+		}()
+		select {
+		case <-done:
+		case <-time.After(120 * time.Second):
+			emit(rec{"e": "hang", "case": k.Case})
+			out.Flush()
+			of.Close()
+			os.Exit(3)
+		}
+	}
+	out.Flush()
+	of.Close()
+	fmt.Printf("cases=%d\n", n)
 }
